@@ -3,8 +3,10 @@
 package api
 
 import (
-	"net/url"
+	"encoding/json"
 	"errors"
+	"net/url"
+	"strconv"
 	"net/http/httptest"
 	"strings"
 
@@ -55,7 +57,7 @@ func (p *verifProject) GetProjectState(checkMem bool) (*types.ProjectState, erro
 	if checkMem {
 		a = 1
 	}
-	return &types.ProjectState{}, p.rec("GetProjectState", "", a, 0)
+	return &types.ProjectState{ProcessNum: 9, HostName: "hh"}, p.rec("GetProjectState", "", a, 0)
 }
 func (p *verifProject) GetLogLength() int { return 0 }
 func (p *verifProject) GetLogsAndSubscribe(name string, observer pclog.LogObserver) error {
@@ -67,13 +69,13 @@ func (p *verifProject) GetProcessLog(name string, offsetFromEnd, limit int) ([]s
 }
 func (p *verifProject) GetLexicographicProcessNames() ([]string, error) { return nil, nil }
 func (p *verifProject) GetProcessInfo(name string) (*types.ProcessConfig, error) {
-	return &types.ProcessConfig{}, p.rec("GetProcessInfo", name, 0, 0)
+	return &types.ProcessConfig{Name: name, ReplicaNum: 5}, p.rec("GetProcessInfo", name, 0, 0)
 }
 func (p *verifProject) GetProcessState(name string) (*types.ProcessState, error) {
-	return &types.ProcessState{}, p.rec("GetProcessState", name, 0, 0)
+	return &types.ProcessState{Name: name, Pid: 77}, p.rec("GetProcessState", name, 0, 0)
 }
 func (p *verifProject) GetProcessesState() (*types.ProcessesState, error) {
-	return &types.ProcessesState{}, p.rec("GetProcessesState", "", 0, 0)
+	return &types.ProcessesState{States: []types.ProcessState{{Name: "s0"}, {Name: "s1"}}}, p.rec("GetProcessesState", "", 0, 0)
 }
 func (p *verifProject) StopProcess(name string) error { return p.rec("StopProcess", name, 0, 0) }
 func (p *verifProject) StopProcesses(names []string) (map[string]string, error) {
@@ -87,7 +89,7 @@ func (p *verifProject) ScaleProcess(name string, scale int) error {
 	return p.rec("ScaleProcess", name, scale, 0)
 }
 func (p *verifProject) GetProcessPorts(name string) (*types.ProcessPorts, error) {
-	return &types.ProcessPorts{}, p.rec("GetProcessPorts", name, 0, 0)
+	return &types.ProcessPorts{Name: name, TcpPorts: []uint16{80, 81, 82}}, p.rec("GetProcessPorts", name, 0, 0)
 }
 func (p *verifProject) SetProcessPassword(name string, password string) error { return nil }
 func (p *verifProject) UpdateProject(project *types.Project) (map[string]string, error) {
@@ -106,7 +108,121 @@ var verifBodyBad bool
 var verifBodyNames []string
 var verifBodyProcName string
 
-func verifJSON(c *gin.Context, code int, obj any) { verifStatuses = append(verifStatuses, code) }
+var verifPayloads []any
+
+func verifJSON(c *gin.Context, code int, obj any) {
+	verifStatuses = append(verifStatuses, code)
+	verifPayloads = append(verifPayloads, obj)
+}
+
+func verifLen(n int) string { return "list:" + strconv.Itoa(n) }
+
+// verifPayload returns the value of one top-level key of the (first) response body as a string:
+// natively decoded from the bytes the real gin context wrote, under symgo read from the object the
+// handler handed to c.JSON. Lists are rendered as "list:<len>", a missing key as "<absent>".
+func verifPayload(key string) string {
+	if verifNative() {
+		var m map[string]any
+		if json.Unmarshal(verifRecorder.Body.Bytes(), &m) != nil {
+			return "<undecodable>"
+		}
+		v, ok := m[key]
+		if !ok {
+			return "<absent>"
+		}
+		switch x := v.(type) {
+		case string:
+			return x
+		case float64:
+			return strconv.Itoa(int(x))
+		case []any:
+			return verifLen(len(x))
+		}
+		return "<other>"
+	}
+	if len(verifPayloads) == 0 {
+		return "<none>"
+	}
+	switch o := verifPayloads[0].(type) {
+	case gin.H:
+		v, ok := o[key]
+		if !ok {
+			return "<absent>"
+		}
+		switch x := v.(type) {
+		case string:
+			return x
+		case []string:
+			return verifLen(len(x))
+		}
+		return "<other>"
+	case map[string]string:
+		v, ok := o[key]
+		if !ok {
+			return "<absent>"
+		}
+		return v
+	case *types.ProcessState:
+		switch key {
+		case "name":
+			return o.Name
+		case "pid":
+			return strconv.Itoa(o.Pid)
+		}
+	case *types.ProcessConfig:
+		switch key {
+		case "Name":
+			return o.Name
+		case "ReplicaNum":
+			return strconv.Itoa(o.ReplicaNum)
+		}
+	case types.ProcessConfig:
+		switch key {
+		case "Name":
+			return o.Name
+		}
+	case *types.ProcessPorts:
+		switch key {
+		case "name":
+			return o.Name
+		case "tcp_ports":
+			return verifLen(len(o.TcpPorts))
+		}
+	case *types.ProcessesState:
+		if key == "data" {
+			return verifLen(len(o.States))
+		}
+	case *types.ProjectState:
+		switch key {
+		case "processNum":
+			return strconv.Itoa(o.ProcessNum)
+		case "hostName":
+			return o.HostName
+		}
+	}
+	return "<absent>"
+}
+
+// number of top-level keys of the response body (maps only; -1 otherwise)
+func verifPayloadKeys() int {
+	if verifNative() {
+		var m map[string]any
+		if json.Unmarshal(verifRecorder.Body.Bytes(), &m) != nil {
+			return -1
+		}
+		return len(m)
+	}
+	if len(verifPayloads) == 0 {
+		return -1
+	}
+	switch o := verifPayloads[0].(type) {
+	case gin.H:
+		return len(o)
+	case map[string]string:
+		return len(o)
+	}
+	return -1
+}
 func verifShouldBindJSON(c *gin.Context, obj any) error {
 	if verifBodyBad {
 		return errors.New("malformed body")
@@ -134,6 +250,7 @@ var verifRecorder *httptest.ResponseRecorder
 
 func verifContext(params map[string]string, body string) *gin.Context {
 	verifStatuses = nil
+	verifPayloads = nil
 	var c *gin.Context
 	if verifNative() {
 		gin.SetMode(gin.ReleaseMode)
@@ -197,23 +314,37 @@ type verifRoute struct {
 	byName  bool
 	partial bool // has a partial-result map (207)
 	body    int  // 0 none, 1 []string, 2 ProcessConfig, 3 Project
+	payload string // what a 200 answer carries: name / state / info / list / host / ports / map / proc / stopped
 }
 
 func verifRoutes() []verifRoute {
 	return []verifRoute{
-		{"GetProcess", (*PcApi).GetProcess, "GetProcessState", true, false, 0},
-		{"GetProcessInfo", (*PcApi).GetProcessInfo, "GetProcessInfo", true, false, 0},
-		{"GetProcesses", (*PcApi).GetProcesses, "GetProcessesState", false, false, 0},
-		{"StopProcess", (*PcApi).StopProcess, "StopProcess", true, false, 0},
-		{"StartProcess", (*PcApi).StartProcess, "StartProcess", true, false, 0},
-		{"RestartProcess", (*PcApi).RestartProcess, "RestartProcess", true, false, 0},
-		{"GetHostName", (*PcApi).GetHostName, "GetHostName", false, false, 0},
-		{"GetProcessPorts", (*PcApi).GetProcessPorts, "GetProcessPorts", true, false, 0},
-		{"StopProcesses", (*PcApi).StopProcesses, "StopProcesses", false, true, 1},
-		{"UpdateProcess", (*PcApi).UpdateProcess, "UpdateProcess", false, false, 2},
-		{"UpdateProject", (*PcApi).UpdateProject, "UpdateProject", false, true, 3},
-		{"ReloadProject", (*PcApi).ReloadProject, "ReloadProject", false, true, 0},
+		{"GetProcess", (*PcApi).GetProcess, "GetProcessState", true, false, 0, "state"},
+		{"GetProcessInfo", (*PcApi).GetProcessInfo, "GetProcessInfo", true, false, 0, "info"},
+		{"GetProcesses", (*PcApi).GetProcesses, "GetProcessesState", false, false, 0, "list"},
+		{"StopProcess", (*PcApi).StopProcess, "StopProcess", true, false, 0, "name"},
+		{"StartProcess", (*PcApi).StartProcess, "StartProcess", true, false, 0, "name"},
+		{"RestartProcess", (*PcApi).RestartProcess, "RestartProcess", true, false, 0, "name"},
+		{"GetHostName", (*PcApi).GetHostName, "GetHostName", false, false, 0, "host"},
+		{"GetProcessPorts", (*PcApi).GetProcessPorts, "GetProcessPorts", true, false, 0, "ports"},
+		{"StopProcesses", (*PcApi).StopProcesses, "StopProcesses", false, true, 1, "map"},
+		{"UpdateProcess", (*PcApi).UpdateProcess, "UpdateProcess", false, false, 2, "proc"},
+		{"UpdateProject", (*PcApi).UpdateProject, "UpdateProject", false, true, 3, "map"},
+		{"ReloadProject", (*PcApi).ReloadProject, "ReloadProject", false, true, 0, "map"},
+		{"ShutDownProject", (*PcApi).ShutDownProject, "ShutDownProject", false, false, 0, "stopped"},
+		{"IsAlive", (*PcApi).IsAlive, "", false, false, 0, "alive"},
 	}
+}
+
+// what a client sees of s after the JSON encoding of the real gin context (natively); s itself under symgo
+func verifJSONView(s string) string {
+	if verifNative() {
+		b, _ := json.Marshal(s)
+		var r string
+		_ = json.Unmarshal(b, &r)
+		return r
+	}
+	return s
 }
 
 // C19 (handlers): every route calls the corresponding runner operation at most once with the
@@ -253,10 +384,27 @@ func VerifC19_Handlers() {
 	if verifBodyBad {
 		verifAssert("malformed.400", code == 400)
 		verifAssert("malformed.no.call", len(prj.calls) == 0)
+		verifAssert("malformed.body", verifPayload("error") != "<absent>")
 		verifReach("malformed")
 		return
 	}
+	if rt.payload == "alive" {
+		// liveness: answered without consulting the runner
+		verifAssert("alive.no.call", len(prj.calls) == 0)
+		verifAssert("alive.200", code == 200)
+		verifAssert("alive.body", verifPayload("status") == "alive")
+		verifReach("end")
+		return
+	}
 	verifAssert("one.call", len(prj.calls) == 1)
+	if rt.payload == "stopped" {
+		// POST /project/stop acknowledges before the shutdown runs; its outcome is not reported
+		verifAssert("right.method", verifAnd(len(prj.calls) == 1, prj.calls[0].method == rt.method))
+		verifAssert("stop.200", code == 200)
+		verifAssert("stop.body", verifPayload("status") == "stopped")
+		verifReach("end")
+		return
+	}
 	if len(prj.calls) == 1 {
 		k := prj.calls[0]
 		verifAssert("right.method", k.method == rt.method)
@@ -273,11 +421,38 @@ func VerifC19_Handlers() {
 	if prj.fail {
 		if rt.partial && prj.partial {
 			verifAssert("partial.207", code == 207)
+			// the partial result is what the client gets to see
+			verifAssert("partial.body", verifAnd(verifPayload("x") == "ok", verifPayloadKeys() == 1))
 		} else {
 			verifAssert("error.400", code == 400)
+			verifAssert("error.body", verifPayload("error") == "operation failed")
 		}
 	} else {
 		verifAssert("ok.200", code == 200)
+		// faithful view: the body is what the runner returned (or names what was acted on)
+		vname := verifJSONView(name)
+		switch rt.payload {
+		case "name":
+			verifAssert("body.name", verifAnd(verifPayload("name") == vname, verifPayloadKeys() == 1))
+		case "state":
+			verifAssert("body.state", verifAnd(verifPayload("name") == vname, verifPayload("pid") == "77"))
+		case "info":
+			verifAssert("body.info", verifAnd(verifPayload("Name") == vname, verifPayload("ReplicaNum") == "5"))
+		case "list":
+			verifAssert("body.list", verifPayload("data") == "list:2")
+		case "host":
+			verifAssert("body.host", verifAnd(verifPayload("name") == "host", verifPayloadKeys() == 1))
+		case "ports":
+			verifAssert("body.ports", verifAnd(verifPayload("name") == vname, verifPayload("tcp_ports") == "list:3"))
+		case "map":
+			if prj.empty {
+				verifAssert("body.map.empty", verifPayloadKeys() == 0)
+			} else {
+				verifAssert("body.map", verifAnd(verifPayload("x") == "ok", verifPayloadKeys() == 1))
+			}
+		case "proc":
+			verifAssert("body.proc", verifPayload("Name") == "pp")
+		}
 	}
 	verifReach("end")
 }
@@ -325,8 +500,14 @@ func VerifC19_Numeric() {
 	}
 	if prj.fail {
 		verifAssert("error.400", code == 400)
+		verifAssert("error.body", verifPayload("error") == "operation failed")
 	} else {
 		verifAssert("ok.200", code == 200)
+		if which == 0 {
+			verifAssert("body.logs", verifPayload("logs") == "list:1")
+		} else {
+			verifAssert("body.name", verifAnd(verifPayload("name") == "n", verifPayloadKeys() == 1))
+		}
 	}
 	verifReach("end")
 }
@@ -360,6 +541,7 @@ func VerifC19_Query() {
 		wantMem := v == "true" || v == "1"
 		verifAssert("flag.passed.on", (prj.calls[0].a == 1) == wantMem)
 	}
+	verifAssert("body.project.state", verifAnd(verifPayload("processNum") == "9", verifPayload("hostName") == "hh"))
 	verifQueryVals = nil
 	verifReach("end")
 }
